@@ -2,6 +2,8 @@ package props
 
 import (
 	"fmt"
+
+	"github.com/glycerine/zygomys/v9/zygo"
 	"sort"
 	"strings"
 
@@ -35,16 +37,16 @@ func init() {
 		ID:    "C05",
 		Level: "fault_enumeration",
 		Rule: "random core-language programs with fault points (inj id) in every syntactic position (loop init/test/advance/body, let bindings and bodies, arguments, callee bodies at call depth 0-5, map/apply, hash literals, closures called later, inside an error-absorbing host callback (try (fn [] …)) that re-enters the VM through the public Apply and handles the error). " +
-			"For each program the fault-free run counts the n dynamic executions of inj; then for EVERY k<=n and each failure kind (host function returns an error; Go panic inside the host function) the program is run in a fresh interpreter with the k-th inj failing; additionally every static fault point is replaced by a form that fails to compile, a parse error is appended, and (thorough) every VM instruction index k of short programs is failed through the step hook. " +
+			"For each program the fault-free run counts the n dynamic executions of inj; then for EVERY k<=n and each failure kind (host function returns an error; Go panic inside the host function) the program is run in a fresh interpreter with the k-th inj failing; additionally every static fault point is replaced by a form that fails to compile, a parse error is appended, and (thorough) every VM instruction index k of short programs is failed through the step hook. Position sweep: 71 templates (every sub-form position of literals, templates, special forms, infix constructs, declarations, higher-order builtins) x 13 failing forms (6 that fail to compile, a host error, a host panic, unbound function/variable, index, division, type error): the evaluation must fail, the VM be at rest, earlier definitions survive, nothing after the failure run, and the generic battery answer as usual. " +
 			"Oracles: error returned and names the injected id (never a value), trace up to the failure equals the reference's, VM at rest, and a follow-up battery (every global read back, every global function called, new definitions, loop, let, recursion, empty input) answers exactly as computed from the reference evaluator's state after the same k-th failure. " +
 			"non-trivial = distinct (program, k, kind) whose failure happened at call depth>=1 or inside a loop/let/try, counted per program text",
 		Assumptions: []string{
 			"reference evaluator keeps all side effects made before the failure and defines nothing after it (calibrated: 0 disagreements on the unchanged tree)",
 			"for compile-error and instruction-level faults no model of the exact failure time is assumed: only error-returned, rest state, effect trace being a prefix of the fault-free trace, and the model-free part of the battery are judged",
 		},
-		NCases:  func(c *core.Ctx) int { return thorN(c, 1500, 8000) },
+		NCases:  func(c *core.Ctx) int { return thorN(c, 1500, 8000) + len(c05Pos)*len(c05Faults) },
 		Chunk:   50,
-		MustSee: []string{"injected_err", "injected_panic", "absorbed_by_try", "battery_questions", "compile_faults", "parse_faults"},
+		MustSee: []string{"injected_err", "injected_panic", "absorbed_by_try", "battery_questions", "compile_faults", "parse_faults", "position_sweep"},
 		Run:     c05Run,
 	})
 }
@@ -142,7 +144,85 @@ func isPrefix(a, b []string) bool {
 	return true
 }
 
+// Position sweep: every sub-form position of every special form / literal / infix construct
+// (X) holds, in turn, each failing form: the evaluation must return an error (never a
+// value), leave the VM at rest, keep what was defined before, define nothing after.
+var c05Pos = []string{
+	"[1 X 2]", "[X]", "^(a ~X)", "^[a ~X]", "^{a: ~X}", "^(a ~@(list X))", "^(a (b ~X))", "(assert X)", "{a: X}", "(hash a: X)", "(list 1 X)", "(and 1 X 2)", "(and 1 X)", "(or 0 X)", "(or 0 X 3)",
+	"(cond X 1 2)", "(cond 0 1 X)", "(cond 1 X 2)", "(cond 0 1 X 2 3)", "(let [q X] q)", "(letseq [p 1 q X] q)", "(let [q 1] X q)", "(let [q 1] q X)", "(begin X 1)", "(begin 1 X)", "(newScope X 1)", "(newScope 1 X)",
+	"(for [X (< 2 1) 1] 1)", "(for [(def i9 0) (and (< i9 1) X) (def i9 (+ i9 1))] 1)", "(for [(def i9 0) (< i9 1) (begin (def i9 (+ i9 1)) X)] 1)", "(for [(def i9 0) (< i9 1) (def i9 (+ i9 1))] X)", "(for [(def i9 0) (< i9 1) (def i9 (+ i9 1))] X 2)",
+	"(def d9 X)", "(set before9 X)", "(mdef u9 v9 (list 1 X))", "(x9 = X)", "(x9 y9 = 1 X)", "{x9 = X}", "{x9 := 1 + X}", "{1 + X}", "{X * 2}", "{if X { 1 } else { 2 }}", "{if true { X }}", "{if false { 1 } else { X }}",
+	"{for i9 := 0; i9 < 1; i9++ { X }}", "{for i9 := range 2 { X }}", "((fn [] X))", "((fn [z] z) X)", "(defn g9 [] X) (g9)", "(defn g9 [] 1 X 2) (g9)", "(defmac m9 [] X) (m9)", "(defmac m9 [] ^(+ 1 ~X)) (m9)",
+	"(range k9 v9 [1] X)", "(range k9 v9 [X] 1)", "(package \"p9\" (def A X))", "(map (fn [z] X) [1 2])", "(map (fn [z] X) (list 1 2))", "(apply (fn [z] X) [1])", "(func h9 [] [r:int64] (return X)) (h9)", "(func h9 [] [r:int64 q:int64] (return 1 X)) (h9)",
+	"(+ 1 X)", "(+ 1 (+ 2 X))", "(str X)", "(aget [1 2] X)", "(hset (hash) a: X)", "(first [X])", "(not X)", "(len [X X])", "(idw X)", "(eval (quote X))", "(eval X)",
+}
+
+var c05Faults = []string{"(let)", "(cond)", "(for)", "(and)", "(quote)", "(fn)", "(boom 7)", "(pboom 7)", "(undefinedfn9 1)", "(aget [1] 9)", "(/ 1 0)", "undefinedvar9", "(+ 1 \"s\")"}
+
+func c05Sweep(c *core.Ctx, k int) *core.Result {
+	pos, fault := c05Pos[k/len(c05Faults)], c05Faults[k%len(c05Faults)]
+	form := strings.ReplaceAll(pos, "X", fault)
+	text := form + "\n(def after9 2)\n" // a text is compiled as a whole before it runs, so before9 is defined by an earlier evaluation
+	res := &core.Result{Input: text, Hash: core.HashOf(text), Nontrivial: true}
+	s := NewSutRun(true)
+	s.Env.AddFunction("boom", func(e *zygo.Zlisp, name string, args []zygo.Sexp) (zygo.Sexp, error) {
+		return zygo.SexpNull, fmt.Errorf("boom-injected")
+	})
+	s.Env.AddFunction("pboom", func(e *zygo.Zlisp, name string, args []zygo.Sexp) (zygo.Sexp, error) {
+		panic("pboom-injected")
+	})
+	// the form alone must succeed when the failing form is replaced by a value: otherwise the
+	// template itself is at fault and says nothing about containment
+	ctl := NewSutRun(true)
+	if oc := ctl.Eval("(def before9 1)\n"+strings.ReplaceAll(pos, "X", "1")+"\n", 200000); oc.Err != nil || oc.Panic != "" {
+		res.Verdict, res.Key, res.Detail = core.Inconclusive, "template-fails-with-a-healthy-operand", OutStr(oc)
+		return res
+	}
+	s.Eval("(def before9 1)\n", 0)
+	o := s.Eval(text, 200000)
+	res.Evals++
+	res.Ev("position_sweep", 1)
+	switch {
+	case o.Panic != "":
+		res.Violate("sweep:escaped-panic:"+o.Site, o.Panic, text)
+		return res
+	case o.Budget:
+		res.Verdict, res.Key = core.Inconclusive, "budget"
+		return res
+	case o.Err == nil:
+		res.Violate("sweep:error-swallowed", fmt.Sprintf("the failing form %s inside %s did not make the evaluation fail: it returned %s", fault, pos, OutStr(o)), text)
+		return res
+	}
+	if d := sut.DepthsOf(s.Env); !atRest(d) || d.Data != 0 {
+		res.Violate("sweep:not-at-rest", fmt.Sprintf("after the failed evaluation: %v", d), text)
+		return res
+	}
+	if b := s.Eval("before9\n", 0); OutStr(b) != "1" && !strings.Contains(pos, "set before9") {
+		res.Violate("sweep:earlier-definition-lost", "before9 evaluates to "+OutStr(b)+" after the failed evaluation", text)
+	}
+	if a := s.Eval("after9\n", 0); a.Err == nil {
+		res.Violate("sweep:ran-past-the-failure", "after9 is defined ("+OutStr(a)+"): forms after the failing one were evaluated", text)
+	}
+	for _, q := range c05Generic {
+		b := s.Eval(q.text, 100000)
+		res.Evals++
+		res.Ev("battery_questions", 1)
+		if OutStr(b) != q.want {
+			res.Violate("sweep:battery", fmt.Sprintf("after the failed evaluation %q gives %s, want %s", q.text, OutStr(b), q.want), text)
+			break
+		}
+		if d := sut.DepthsOf(s.Env); !atRest(d) || d.Data != 0 {
+			res.Violate("sweep:not-at-rest", fmt.Sprintf("after battery question %q: %v", q.text, d), text)
+			break
+		}
+	}
+	return res
+}
+
 func c05Run(c *core.Ctx, i int) *core.Result {
+	if base := thorN(c, 1500, 8000); i >= base {
+		return c05Sweep(c, i-base)
+	}
 	g, prog, n := c05Gen(c, i)
 	text := lang.Plain.Program(prog)
 	res := &core.Result{Input: text, Hash: core.HashOf(text)}
